@@ -1150,16 +1150,19 @@ func NewSingleAddressWallet(priv types.PrivateKey, cm ChainManager, store Single
 		}
 	})
 
-	// rebroadcast transactions in a separate goroutine
+	// rebroadcast transactions in a separate goroutine; it is registered with
+	// the thread group before it is started, otherwise a Close that runs before
+	// the goroutine is scheduled would not wait for it
+	ctx, cancel, err := sw.tg.AddContext(context.Background())
+	if err != nil {
+		stop()
+		return nil, fmt.Errorf("failed to add context: %w", err)
+	}
 	go func() {
-		defer stop()
-
-		ctx, cancel, err := sw.tg.AddContext(context.Background())
-		if err != nil {
-			sw.log.Error("failed to add context", zap.Error(err))
-			return
-		}
+		// leave the thread group last: Close must not return before the
+		// reorg subscription has been cancelled
 		defer cancel()
+		defer stop()
 
 		// debounce rebroadcasting during heavy syncing
 		debounce := time.NewTimer(cfg.RebroadcastDebounceInterval)
